@@ -96,7 +96,7 @@ def rule_pred(ctx):
     curve = sym.mk("get", P("ref", "ec_util.CURVE_FACTORY"), sym.mk("attr", sym.mk("attr", K, "ec_info"), "curve_type"), P("lit", "None"))
     bl = sym.mk("bitlen", sym.mk("attr", curve, "n"))
     isnone = ("same", *sorted([repr(curve), repr(Const(None))]))
-    ok, d = regions.equivalent_mixed([p[0] for p in pos], lambda v: (not v.truth(isnone)) and v[bl] < 224, mains=[bl], bool_atoms=[isnone])
+    ok, d = regions.equivalent_mixed([p[0] for p in pos], lambda v: (not v.truth(isnone)) and v[bl] < 224, mains=[bl], bool_atoms=[isnone], spec_consts=(224,))
     ctx.record(R, b.where(), "flag <=> curve known and order length < 224", ok, d)
     ok2, d2 = regions.equivalent_mixed([p[0] for p in skip], lambda v: v.truth(isnone), mains=[], bool_atoms=[isnone]) if skip else (False, "unknown curves are not skipped")
     ctx.record(R, b.where(), "skipped <=> curve unknown", ok2, d2)
